@@ -34,7 +34,7 @@ package fasta
 //@   props C03
 //@   requires sok(s) && srem(s) > 0
 //@   ensures sok(s) && s.r == old(s.r) && srem(s) < old(srem(s)) && tok == ENDOFLINE
-//@   modifies gfield(s.r, rem), gfield(s.r, unread), gfield(blen)
+//@   modifies gfield(s.r, rem), gfield(s.r, unread), gf(buflen), gfa(bufdata)
 //@   loop 1
 //@     invariant sok(s) && s.r == old(s.r) && srem(s) < old(srem(s))
 //@     decreases srem(s)
@@ -43,9 +43,9 @@ package fasta
 //@   props C03
 //@   requires sok(s) && srem(s) > 0
 //@   ensures sok(s) && s.r == old(s.r) && srem(s) < old(srem(s)) && tok == IDENTIFIER && len(lit) >= 1
-//@   modifies gfield(s.r, rem), gfield(s.r, unread), gfield(blen)
+//@   modifies gfield(s.r, rem), gfield(s.r, unread), gf(buflen), gfa(bufdata)
 //@   loop 1
-//@     invariant sok(s) && s.r == old(s.r) && srem(s) < old(srem(s)) && gfield(buf, blen) >= 1
+//@     invariant sok(s) && s.r == old(s.r) && srem(s) < old(srem(s)) && gf(buflen, buf) >= 1
 //@     decreases srem(s)
 
 // Scan: either the end-of-file token, or at least one rune has been consumed
@@ -56,7 +56,7 @@ package fasta
 //@   ensures tok == EOF || srem(s) < old(srem(s))
 //@   ensures tok == EOF || tok == STARTIDENT || tok == IDENTIFIER || tok == ENDOFLINE
 //@   ensures tok == IDENTIFIER ==> len(lit) >= 1
-//@   modifies gfield(s.r, rem), gfield(s.r, unread), gfield(blen)
+//@   modifies gfield(s.r, rem), gfield(s.r, unread), gf(buflen), gfa(bufdata)
 
 // ---- parser ----
 
@@ -70,7 +70,7 @@ package fasta
 //@   ensures pok(p) && p.s == old(p.s) && p.s.r == old(p.s.r) && pM(p) <= old(pM(p)) && p.buf.n == 0
 //@   ensures tok == EOF || pM(p) < old(pM(p))
 //@   ensures tok == IDENTIFIER && old(p.buf.n) == 0 ==> len(lit) >= 1
-//@   modifies p.buf.n, p.buf.tok, p.buf.lit, gfield(p.s.r, rem), gfield(p.s.r, unread), gfield(blen)
+//@   modifies p.buf.n, p.buf.tok, p.buf.lit, gfield(p.s.r, rem), gfield(p.s.r, unread), gf(buflen), gfa(bufdata)
 
 //@ func (*Parser).unscan
 //@   props C03
@@ -83,14 +83,14 @@ package fasta
 //@   requires pok(p)
 //@   ensures pok(p) && p.s == old(p.s) && p.s.r == old(p.s.r) && pM(p) <= old(pM(p)) && p.buf.n == 0
 //@   ensures tok == EOF || pM(p) < old(pM(p))
-//@   modifies p.buf.n, p.buf.tok, p.buf.lit, gfield(p.s.r, rem), gfield(p.s.r, unread), gfield(blen)
+//@   modifies p.buf.n, p.buf.tok, p.buf.lit, gfield(p.s.r, rem), gfield(p.s.r, unread), gf(buflen), gfa(bufdata)
 
 // parseGeneric: terminates; success implies at least one sequence was added and the bag is well formed
 //@ func (*Parser).parseGeneric
 //@   props C03
 //@   requires pok(p) && sb != nil && wf(sb) && nrows(sb) == 0 && (isalign(sb) ==> wfa(sb))
 //@   ensures err == nil ==> wf(sb) && (isalign(sb) ==> wfa(sb)) && nrows(sb) >= 1
-//@   modifies p.buf.n, p.buf.tok, p.buf.lit, gfield(rem), gfield(unread), gfield(blen), field(align.seqbag.seqs), field(align.align.length), mem(*align.seq), maps(map[string]*align.seq), field(align.seqbag.alphabet)
+//@   modifies p.buf.n, p.buf.tok, p.buf.lit, gfield(rem), gfield(unread), gf(buflen), gfa(bufdata), field(align.seqbag.seqs), field(align.align.length), mem(*align.seq), maps(map[string]*align.seq), field(align.seqbag.alphabet)
 //@   loop 1
 //@     invariant pok(p) && err == nil && sb != nil && wf(sb) && (isalign(sb) ==> wfa(sb)) && isalign(sb) == old(isalign(sb))
 //@     invariant tok == EOF ==> nrows(sb) >= 1
@@ -100,10 +100,10 @@ package fasta
 //@   props C03
 //@   requires pok(p)
 //@   ensures err == nil ==> al != nil && wfa(al) && nrows(al) >= 1 && al.length >= 0
-//@   modifies p.buf.n, p.buf.tok, p.buf.lit, gfield(rem), gfield(unread), gfield(blen), field(align.seqbag.seqs), field(align.align.length), mem(*align.seq), maps(map[string]*align.seq), field(align.seqbag.alphabet), field(align.seqbag.ignoreidentical)
+//@   modifies p.buf.n, p.buf.tok, p.buf.lit, gfield(rem), gfield(unread), gf(buflen), gfa(bufdata), field(align.seqbag.seqs), field(align.align.length), mem(*align.seq), maps(map[string]*align.seq), field(align.seqbag.alphabet), field(align.seqbag.ignoreidentical)
 
 //@ func (*Parser).ParseUnalign
 //@   props C03
 //@   requires pok(p)
 //@   ensures err == nil ==> sb != nil && wf(sb) && nrows(sb) >= 1
-//@   modifies p.buf.n, p.buf.tok, p.buf.lit, gfield(rem), gfield(unread), gfield(blen), field(align.seqbag.seqs), field(align.align.length), mem(*align.seq), maps(map[string]*align.seq), field(align.seqbag.alphabet), field(align.seqbag.ignoreidentical)
+//@   modifies p.buf.n, p.buf.tok, p.buf.lit, gfield(rem), gfield(unread), gf(buflen), gfa(bufdata), field(align.seqbag.seqs), field(align.align.length), mem(*align.seq), maps(map[string]*align.seq), field(align.seqbag.alphabet), field(align.seqbag.ignoreidentical)
